@@ -9,7 +9,7 @@ Record Inv1 (s : st) : Prop := {
   i_places : places s = (match up s with UDead => 0 | _ => 1 end)%nat;
   i_hun : forall i, un s i = NHold -> holder s = HUn i;
   i_hcn : forall i, cn s i = CHold -> holder s = HCn i;
-  i_htm : forall i dl, tm s i = TmHold dl -> holder s = HTm i;
+  i_htm : forall i, tm s i = TmHold -> holder s = HTm i;
   i_run : running s = urun (up s);
   i_susp : slot s = true \/ kholds (kp s) = true \/ held (holder s) = true -> up s = USusp;
   i_wk : wk s = guard_on (kp s);
@@ -50,6 +50,17 @@ Ltac rw :=
   | E : wk ?s = ?r |- _ => is_var s; rwE E s r
   | E : cdis ?s = ?r |- _ => is_var s; rwE E s r
   | E : nested ?s = ?r |- _ => is_var s; rwE E s r
+  | E : kdur ?s = ?r |- _ => is_var s; rwE E s r
+  | E : kdl ?s = ?r |- _ => is_var s; rwE E s r
+  | E : hnd ?s = ?r |- _ => is_var s; rwE E s r
+  | E : wsrc ?s = ?r |- _ => is_var s; rwE E s r
+  | E : para ?s = ?r |- _ => is_var s; rwE E s r
+  | E : cco ?s = ?r |- _ => is_var s; rwE E s r
+  | E : cbit ?s = ?r |- _ => is_var s; rwE E s r
+  | E : pstate ?s = ?r |- _ => is_var s; rwE E s r
+  | E : ccheck ?s = ?r |- _ => is_var s; rwE E s r
+  | E : oldk ?s = ?r |- _ => is_var s; rwE E s r
+  | E : dropping ?s = ?r |- _ => is_var s; rwE E s r
   end.
 
 (* case analysis on where the coroutine is, from the places equation (hypothesis Ipl) *)
@@ -77,7 +88,7 @@ Ltac use_h :=
       | Hh : forall i, cn _ i = CHold -> _, Hj : cn _ ?j = CHold |- _ => specialize (Hh j Hj)
       end;
   try match goal with
-      | Hh : forall i dl, tm _ i = TmHold dl -> _, Hj : tm _ ?j = TmHold _ |- _ => specialize (Hh j _ Hj)
+      | Hh : forall i, tm _ i = TmHold -> _, Hj : tm _ ?j = TmHold |- _ => specialize (Hh j Hj)
       end.
 Ltac cl :=
   unfold places; cbn; rw; cbn; intros;
@@ -107,7 +118,7 @@ Ltac absurd_hyp :=
 Ltac holder_fact :=
   try match goal with E : un ?s ?i = NHold, Hh : forall i, un ?s i = NHold -> _ |- _ => pose proof (Hh i E) end;
   try match goal with E : cn ?s ?i = CHold, Hh : forall i, cn ?s i = CHold -> _ |- _ => pose proof (Hh i E) end;
-  try match goal with E : tm ?s ?i = TmHold ?d, Hh : forall i dl, tm ?s i = TmHold dl -> _ |- _ => pose proof (Hh i d E) end.
+  try match goal with E : tm ?s ?i = TmHold, Hh : forall i, tm ?s i = TmHold -> _ |- _ => pose proof (Hh i E) end.
 Ltac pre Ipl :=
   unfold canceled in *; holder_fact; rw; cbn in *|-; sp; rw; cbn in *|-; where_ Ipl; rw; sp; rw; cbn in *|-; absurd_hyp.
 
@@ -135,22 +146,22 @@ Proof. intros R. apply (i_places s (inv1_reach s R)). Qed.
 Theorem taken_by_exactly_one s : ReachF s ->
   (forall i, un s i = NHold -> holder s = HUn i) /\
   (forall i, cn s i = CHold -> holder s = HCn i) /\
-  (forall i dl, tm s i = TmHold dl -> holder s = HTm i).
+  (forall i, tm s i = TmHold -> holder s = HTm i).
 Proof. intros R. destruct (inv1_reach s R). auto. Qed.
 
 Corollary holders_unique s : ReachF s ->
   (forall i j, un s i = NHold -> un s j = NHold -> i = j) /\
   (forall i j, cn s i = CHold -> cn s j = CHold -> i = j) /\
-  (forall i j d e, tm s i = TmHold d -> tm s j = TmHold e -> i = j) /\
+  (forall i j, tm s i = TmHold -> tm s j = TmHold -> i = j) /\
   (forall i j, un s i = NHold -> cn s j = CHold -> False) /\
-  (forall i j d, un s i = NHold -> tm s j = TmHold d -> False) /\
-  (forall i j d, cn s i = CHold -> tm s j = TmHold d -> False).
+  (forall i j, un s i = NHold -> tm s j = TmHold -> False) /\
+  (forall i j, cn s i = CHold -> tm s j = TmHold -> False).
 Proof.
   intros R. destruct (taken_by_exactly_one s R) as (A & B & C).
   repeat split; intros;
     repeat match goal with
     | H : un s _ = NHold |- _ => apply A in H
     | H : cn s _ = CHold |- _ => apply B in H
-    | H : tm s _ = TmHold _ |- _ => apply C in H
+    | H : tm s _ = TmHold |- _ => apply C in H
     end; congruence.
 Qed.
